@@ -141,6 +141,68 @@ mod verif_c17 {
         std::mem::forget(it);
     }
 
+    // @harness id=C17 tier=quick timeout=1800 mem=12
+    // @bounds an inner iterator of 0..=2 items, 4 calls of next()/next_back() in symbolic order, ProgressBar::is_finished / finish_using_style replaced by recorders: items pass through, the position counts exactly the items handed out, the bar is finished exactly once -- at the first None -- and never again
+    #[kani::proof]
+    #[kani::unwind(6)]
+    #[kani::stub(crate::state::AtomicPosition::allow, never_allow)]
+    //@STUBS std now noterm nomulti norender rlany noweight pbfinishrec
+    fn c17_iter_exhaustion_finishes_once() {
+        unsafe {
+            PB_FINISHED = false;
+            PB_FINISH_CALLS = 0;
+        }
+        let n: usize = kani::any();
+        kani::assume(n <= 2);
+        let items: [u32; 3] = kani::any();
+        let p0: u64 = kani::any();
+        let mut it = ProgressBarIter { it: MockIter { n, items, front: 0, back: 0, taken: 0 }, progress: bar(p0, ProgressFinish::AndLeave) };
+        let mut model = MockIter { n, items, front: 0, back: 0, taken: 0 };
+        let mut k = 0;
+        while k < 4 {
+            let back: bool = kani::any();
+            let (a, b) = if back { (it.next_back(), model.next_back()) } else { (it.next(), model.next()) };
+            assert!(a == b);
+            assert!(pos_of(&it.progress) == p0.wrapping_add(model.taken as u64));
+            let want_calls = if b.is_none() || unsafe { PB_FINISH_CALLS } > 0 { 1 } else { 0 };
+            assert!(unsafe { PB_FINISH_CALLS } == want_calls);
+            k += 1;
+        }
+        assert!(unsafe { PB_FINISH_CALLS } == 1); // 4 calls always run past the end of <= 2 items
+        kani::cover!(n == 2);
+        kani::cover!(n == 0);
+        std::mem::forget(it);
+    }
+
+    // @harness id=C17 tier=quick timeout=1800 mem=12
+    // @bounds nth(k), k in 0..=3, then next(), on an inner iterator of 2 items (same recorders): same results as the inner iterator, the position counts exactly the items the inner iterator handed out -- also when nth runs past the end
+    #[kani::proof]
+    #[kani::unwind(6)]
+    #[kani::stub(crate::state::AtomicPosition::allow, never_allow)]
+    //@STUBS std now noterm nomulti norender rlany noweight pbfinishrec
+    fn c17_iter_nth_counts_items() {
+        unsafe {
+            PB_FINISHED = false;
+            PB_FINISH_CALLS = 0;
+        }
+        let k: usize = kani::any();
+        kani::assume(k <= 3);
+        let mut it = ProgressBarIter { it: MockIter { n: 2, items: [7, 8, 9], front: 0, back: 0, taken: 0 }, progress: bar(5, ProgressFinish::Abandon) };
+        let mut model = MockIter { n: 2, items: [7, 8, 9], front: 0, back: 0, taken: 0 };
+        let a = it.nth(k);
+        let b = model.nth(k);
+        assert!(a == b);
+        assert!(it.it.taken == model.taken);
+        assert!(pos_of(&it.progress) == 5 + model.taken as u64);
+        let a2 = it.next();
+        let b2 = model.next();
+        assert!(a2 == b2);
+        assert!(pos_of(&it.progress) == 5 + model.taken as u64);
+        kani::cover!(k == 3 && a.is_none());
+        kani::cover!(k == 0 && a2 == Some(8));
+        std::mem::forget(it);
+    }
+
     // ---------------------------------------------------------------- io mocks
     /// every call returns a symbolic verdict: Ok(n) with n <= what was asked for, or Err(kind)
     struct MockIo {
